@@ -134,6 +134,7 @@ class C12(Prop):
                                                              "wqrun size=2 workers=3 blocks=2 items=9 seed=3 pert=80 lazy=1"]})
         c.append({"name": "thrun-small", "ops": ["thrun workers=1 rounds=2 seed=1 pert=0", "thrun workers=4 rounds=2 seed=3 pert=70"]})
         c.append(self.dsq_case("dsq-one-per-chunk", "dna", [[0, 1, 2, 3] * 5, [], [15] * 7, [0, 1, 2, 3] * 10 + [4 + 1]], 1, 8, 2, 2, 1))
+        c.append(self.dsq_case("dsq-library-defaults", "dna", [[0, 1, 2, 3] * 9, [], [15, 0, 1] * 5, [2] * 31], 0, 0, 0, 3, 5))
         c.append(self.dsq_case("dsq-single-empty-seq", "amino", [[]], 3, 4, 1, 2, 1))
         return c
 
@@ -313,7 +314,10 @@ class C12(Prop):
                 nseq = len(seqs)
             else:
                 seqs = [self.rand_dsq(rng, amino, min(maxlen, 300 if quick else 3000), full=raw) for _ in range(nseq)]
-            out.append(self.dsq_case("dsqrt%d" % c, "amino" if amino else "dna", seqs, maxseq, maxpacket, rng.randrange(1, 5), rng.randrange(1, 5),
+            U_ = rng.randrange(1, 5)
+            if rng.random() < 0.12:     # the library's own defaults (hook value 0): 4096 sequences / 262144 packets per chunk, 4 unpackers
+                maxseq, maxpacket, U_ = rng.choice([(0, 0, 0), (0, maxpacket, U_), (maxseq, 0, 0), (0, 0, U_)])
+            out.append(self.dsq_case("dsqrt%d" % c, "amino" if amino else rng.choice(["dna", "dna", "rna"]), seqs, maxseq, maxpacket, U_, rng.randrange(1, 5),
                                      rng.randrange(1, 1 << 30), rng.choice([0, 20, 50, 80]), rng, raw=raw))
             stats["dsqrt"] += 1; stats["dsqrt_seqs"] += nseq
         # --- structured databases (every run, every seed): the shapes in which the loader's index carry-over matters
@@ -375,6 +379,14 @@ class C12(Prop):
                 out.append(self.dsq_case("dsqbig%d" % c, "amino" if amino else "dna", seqs, maxseq, maxpacket, rng.randrange(1, 5), rng.randrange(1, 5),
                                          rng.randrange(1, 1 << 30), 10, rng, raw=(c >= 2)))
                 stats["dsqrt"] += 1; stats["dsqrt_seqs"] += nseq
+        if not quick:
+            # the writer's guarantee at its boundary, with the library's default limits: 6*262144-1 residues = exactly 262144 packets
+            # = one full default chunk; 6*262144 residues must be refused by esl_dsqdata_Write
+            # (the refusal of 6*262144 residues is an ESL_EXCEPTION path that leaks its ESL_SQ by design - exceptions are fatal
+            #  in Easel - so it cannot be exercised in-process next to a leak monitor)
+            for nm, L in (("dsq-maxlen-accepted", 6 * 262144 - 1),):
+                seqs = [[3, 1, 4], [rng.randrange(20) for _ in range(L)], [7] * 10]
+                out.append(self.dsq_case(nm, "amino", seqs, 0, 0, 0, 2, 11, 0, rng))
         rng.shuffle(out)
         return out
 
@@ -487,6 +499,10 @@ class C12(Prop):
             elif w[0] == "dsqrt":
                 if l.startswith(("fault", "atexit")):
                     return Failure("fault", "threaded read-back died: %s" % l[:200])
+                if a.get("writer") != "raw" and any(len(x) - 1 >= 2 * 6 * 262144 for x in a["dsq"].split(",")):
+                    if l != "write-eunimplemented":
+                        return Failure("monitor", "esl_dsqdata_Write accepted a sequence of 6*eslDSQDATA_CHUNK_MAXPACKET residues or more: %r" % l[:100])
+                    continue
                 r = kv(l)
                 nseq = 0 if a["dsq"] == "-" else a["dsq"].count(",") + 1
                 unx = lambda x: list(bytes.fromhex(x[1:]))
@@ -495,7 +511,7 @@ class C12(Prop):
                     return Failure("monitor", "read-back differs from what was written (dup/miss/bad record, EOF not delivered to every consumer, lock misuse, leaked chunk): %r" % l[:300])
                 amino = a["abc"] == "amino"
                 P = [len((pack5 if amino else pack2)(unx(x))) for x in (a["dsq"].split(",") if a["dsq"] != "-" else [])]
-                maxseq, maxpacket = int(a["maxseq"]), int(a["maxpacket"])
+                maxseq, maxpacket = int(a["maxseq"]) or 4096, int(a["maxpacket"]) or 262144      # 0 = the library's defaults
                 i = 0
                 for ch in (r["chunks"].split(",") if r["chunks"] != "-" else []):
                     i0, n, pn = map(int, ch.split(":"))
